@@ -309,9 +309,19 @@ fn metrics_var(s: &mut Session, cx: &mut Ctx, d: &mut D) {
         let long = |d: &mut D| (0..nl).map(|_| w::hmtx::LongMetric { advance: d.u16(), side_bearing: d.i16() }).collect::<Vec<_>>();
         let h = w::hmtx::Hmtx { h_metrics: long(d), left_side_bearings: (0..nb).map(|_| d.i16()).collect() };
         let args = (nl as u16, (nl + nb) as u16);
-        roundtrip_via(s, "Hmtx", &format!("dx:long={nl}:bearings={nb}"), &h, |b| r::hmtx::Hmtx::read_with_args(FontData::new(b), &args).map(|t| t.to_owned_table()), |_, _| {});
+        let hargs = [("number_of_h_metrics".to_string(), nl.to_string()), ("num_glyphs".to_string(), (nl + nb).to_string())];
+        if let Some(b) = roundtrip_via(s, "Hmtx", &format!("dx:long={nl}:bearings={nb}"), &h, |b| r::hmtx::Hmtx::read_with_args(FontData::new(b), &args).map(|t| t.to_owned_table()), |_, _| {}) {
+            if let Ok(t) = r::hmtx::Hmtx::read_with_args(FontData::new(&b), &args) {
+                crate::walk::walk_table_args(s, cx, &t, &b, 0, &hargs);
+            }
+        }
         let v = w::vmtx::Vmtx { v_metrics: long(d), top_side_bearings: (0..nb).map(|_| d.i16()).collect() };
-        roundtrip_via(s, "Vmtx", &format!("dx:long={nl}:bearings={nb}"), &v, |b| r::vmtx::Vmtx::read_with_args(FontData::new(b), &args).map(|t| t.to_owned_table()), |_, _| {});
+        let vargs = [("number_of_long_ver_metrics".to_string(), nl.to_string()), ("num_glyphs".to_string(), (nl + nb).to_string())];
+        if let Some(b) = roundtrip_via(s, "Vmtx", &format!("dx:long={nl}:bearings={nb}"), &v, |b| r::vmtx::Vmtx::read_with_args(FontData::new(b), &args).map(|t| t.to_owned_table()), |_, _| {}) {
+            if let Ok(t) = r::vmtx::Vmtx::read_with_args(FontData::new(&b), &args) {
+                crate::walk::walk_table_args(s, cx, &t, &b, 0, &vargs);
+            }
+        }
     }
     // sbix header: flags, strikes (glyph data offsets are plain numbers)
     for (bits, ns, ng) in [(1u16, 0usize, 0u16), (1, 1, 0), (3, 2, 3), (3, 3, 255), (1, 1, 256)] {
@@ -319,7 +329,11 @@ fn metrics_var(s: &mut Session, cx: &mut Ctx, d: &mut D) {
             w::sbix::HeaderFlags::from_bits_truncate(bits),
             (0..ns).map(|_| w::sbix::Strike::new(d.u16(), d.u16(), (0..ng as usize + 1).map(|_| d.u32()).collect())).collect(),
         );
-        roundtrip_via(s, "Sbix", &format!("dx:flags={bits:#b}:strikes={ns}:glyphs={ng}"), &sb, |b| r::sbix::Sbix::read_with_args(FontData::new(b), &ng).map(|t| t.to_owned_table()), |_, _| {});
+        if let Some(b) = roundtrip_via(s, "Sbix", &format!("dx:flags={bits:#b}:strikes={ns}:glyphs={ng}"), &sb, |b| r::sbix::Sbix::read_with_args(FontData::new(b), &ng).map(|t| t.to_owned_table()), |_, _| {}) {
+            if let Ok(t) = r::sbix::Sbix::read_with_args(FontData::new(&b), &ng) {
+                crate::walk::walk_table_args(s, cx, &t, &b, 0, &[("num_glyphs".to_string(), ng.to_string())]);
+            }
+        }
     }
 }
 
